@@ -1015,9 +1015,50 @@ func opaqueCases(x interface{}) []Case {
 	return out
 }
 
+// sharedPointerCases: ONE non-nil pointer reachable twice (a DAG, not a cycle): the converted value
+// is what it is when the two occurrences are distinct pointers to equal data.
+func sharedPointerCases() []Case {
+	type inner struct {
+		A int    `yae:"a"`
+		B string `yae:"b"`
+	}
+	type transfer struct {
+		From *inner `yae:"from"`
+		To   *inner `yae:"to"`
+		N    *int   `yae:"n"`
+		M    *int   `yae:"m"`
+	}
+	type wrap struct {
+		Xs []*inner          `yae:"xs"`
+		Ms map[string]*inner `yae:"ms"`
+		P  **int             `yae:"p"`
+		Q  **int             `yae:"q"`
+	}
+	n := 7
+	pn := &n
+	in := &inner{1, "x"}
+	tm := time.Date(2020, 1, 2, 3, 4, 5, 0, time.UTC)
+	var out []Case
+	for _, x := range []interface{}{
+		[]*int{pn, pn}, []*int{pn, pn, pn}, []interface{}{pn, pn}, []interface{}{in, in, 1},
+		map[string]*int{"a": pn, "b": pn}, map[string]interface{}{"a": in, "b": in},
+		transfer{in, in, pn, pn}, &transfer{in, in, pn, pn}, []transfer{{in, in, pn, pn}, {in, in, pn, pn}},
+		wrap{[]*inner{in, in}, map[string]*inner{"k": in, "j": in}, &pn, &pn},
+		[]*time.Time{&tm, &tm}, [][]*int{{pn}, {pn}}, [2]*inner{in, in},
+		struct {
+			A *inner `yae:"a"`
+			B []*inner
+		}{in, []*inner{in}},
+	} {
+		out = append(out, convCases(x, []string{"fixed:shared-pointer"}, envish(reflect.TypeOf(x)))...)
+	}
+	return out
+}
+
 func genConvCases(r *rand.Rand, n int, thorough bool) []Case {
 	out := fixedConvCases()
 	out = append(out, depthCases()...)
+	out = append(out, sharedPointerCases()...)
 	for i := 0; i < n; i++ {
 		switch r.Intn(10) {
 		case 0, 1:
